@@ -12,10 +12,12 @@ def run(p):
 res = {}
 if os.path.exists(out):
     res = json.load(open(out))
-seeds = sorted(glob.glob(os.path.join(root, '*', '*', 'patch.diff')))
+seeds = sorted(glob.glob(os.path.join(root, '*', '*', 'patch.diff'))) or sorted(glob.glob(os.path.join(root, '*', 'patch.diff')))
 for pf in seeds:
     d = os.path.dirname(pf)
     sid = os.path.basename(os.path.dirname(d)).replace('-out', '') + '/' + os.path.basename(d)
+    if os.path.dirname(d) == root.rstrip('/'):
+        sid = os.path.basename(d)          # /verif/seeded/<ID>-<v>/patch.diff
     if sid in res:
         continue
     subprocess.run(['git', '-C', '/repo', 'checkout', '--', '.'])
